@@ -9,6 +9,16 @@ Theorem C06_trace_equiv_b_sound : forall w w', trace_equiv_b w w' = true -> teq 
 Proof. exact trace_equiv_b_sound. Qed.
 Print Assumptions C06_trace_equiv_b_sound.
 
+(* ... and complete: with distinct identities it accepts every trace-equivalent reordering, so a rejection always names
+   a real exchange of dependent operations or a different multiset of operations *)
+Theorem C06_trace_equiv_b_complete : forall w w', NoDup (map t_uid w) -> teq top_dep w' w -> trace_equiv_b w w' = true.
+Proof. exact trace_equiv_b_complete. Qed.
+Print Assumptions C06_trace_equiv_b_complete.
+
+Theorem C06_trace_equiv_b_iff : forall w w', NoDup (map t_uid w) -> (trace_equiv_b w w' = true <-> teq top_dep w' w).
+Proof. exact trace_equiv_b_iff. Qed.
+Print Assumptions C06_trace_equiv_b_iff.
+
 (* the projection lemma: same identified operations + equal per-resource subsequences => trace equivalent *)
 Theorem C06_projection_lemma : forall (op : Type) (uid : op -> nat) (res : op -> list nat) (w w' : list op),
   NoDup (map uid w) -> NoDup (map uid w') -> Permutation w w' ->
